@@ -162,6 +162,21 @@ pub fn capture_end() -> (String, String) {
     (String::from_utf8_lossy(&out).to_string(), String::from_utf8_lossy(&err).to_string())
 }
 
+/// The temporary directory of the simulated machine (TMPDIR of every simulated process). It is
+/// the one place outside the simulated disk where the code under test could keep durable state
+/// (a cache, a lock, a log): it survives from one simulated process to the next within a run — a
+/// server restart, the next command-line invocation on the same world — and is emptied at the start
+/// of every run and before every reference execution, which stands for a clean machine.
+pub const SIM_TMP: &str = "/t";
+
+pub fn reset_sim_tmp() {
+    use std::os::unix::fs::PermissionsExt;
+    let p = Path::new(SIM_TMP);
+    let _ = std::fs::remove_dir_all(p);
+    let _ = std::fs::create_dir_all(p);
+    let _ = std::fs::set_permissions(p, std::fs::Permissions::from_mode(0o1777));
+}
+
 /// The user a simulated process runs as when the variant asks for an unprivileged process (the
 /// worker itself is root, for which permission bits mean nothing).
 pub const UNPRIVILEGED_ID: u32 = 65534;
